@@ -16,7 +16,7 @@ use crate::ring_like::digest;
 #[cfg(feature = "pem")]
 use crate::ENCODE_CONFIG;
 use crate::{
-	oid, write_distinguished_name, write_dt_utc_or_generalized,
+	ensure_ia5, oid, write_distinguished_name, write_dt_utc_or_generalized,
 	write_x509_authority_key_identifier, write_x509_extension, DistinguishedName, Error, Issuer,
 	KeyIdMethod, KeyPair, KeyUsagePurpose, SanType, SerialNumber,
 };
@@ -649,6 +649,7 @@ impl CertificateParams {
 		pub_key: &K,
 		issuer: Issuer<'_>,
 	) -> Result<CertificateDer<'static>, Error> {
+		self.validate()?;
 		let der = issuer.key_pair.sign_der(|writer| {
 			let pub_key_spki =
 				yasna::construct_der(|writer| serialize_public_key_der(pub_key, writer));
@@ -847,6 +848,28 @@ impl CertificateParams {
 		})?;
 
 		Ok(der.into())
+	}
+
+	/// Checks the values that the type system lets through but that can't be encoded, so that
+	/// serialization returns an error instead of panicking on them.
+	fn validate(&self) -> Result<(), Error> {
+		// Fields typed as a plain `String` that are encoded as an `IA5String`
+		let subtrees = self.name_constraints.iter().flat_map(|constraints| {
+			constraints
+				.permitted_subtrees
+				.iter()
+				.chain(constraints.excluded_subtrees.iter())
+		});
+		for subtree in subtrees {
+			match subtree {
+				GeneralSubtree::Rfc822Name(name) | GeneralSubtree::DnsName(name) => ensure_ia5(name)?,
+				GeneralSubtree::DirectoryName(_) | GeneralSubtree::IpAddress(_) => {},
+			}
+		}
+		for distribution_point in &self.crl_distribution_points {
+			distribution_point.validate()?;
+		}
+		Ok(())
 	}
 
 	/// Insert an extended key usage (EKU) into the parameters if it does not already exist
